@@ -1,15 +1,35 @@
-Check (C06_only_finish_touches_the_sink : forall m o, o <> FIN ->
+Open Scope N_scope.
+Check (C06_only_finish_touches_the_sink : (forall m o, o <> FIN ->
   w_sink (m_writer (fst (step m o))) = w_sink (m_writer m) /\
   w_bytes_written (m_writer (fst (step m o))) = w_bytes_written (m_writer m) /\
   w_finalized (m_writer (fst (step m o))) = w_finalized (m_writer m) /\
-  m_finished (fst (step m o)) = m_finished m).
-Check (C06_nothing_written_before_finish : forall b m0 ops, build b [] = inl m0 -> Forall (fun o => o <> FIN) ops -> sink_bytes (w_sink (m_writer (fst (run m0 ops)))) = []).
-Check (C06_successful_finish_finishes : forall m s m', step m FIN = (m', RStats s) -> m_finished m' = true /\ w_finalized (m_writer m') = true).
-Check (C06_after_finish_every_call_is_rejected_and_changes_nothing : forall m, m_finished m = true -> w_finalized (m_writer m) = true -> forall o, exists e, step m o = (m, RErr e)).
-Check (C06_stats_count_frames_and_bytes : forall m s m', step m FIN = (m', RStats s) ->
-  st_video_frames s = len (w_vrev (m_writer m)) /\ st_audio_frames s = len (w_arev (m_writer m)) /\
+  m_finished (fst (step m o)) = m_finished m)%type).
+Check (C06_nothing_written_before_finish : (forall b m0 ops,
+  build b [] = inl m0 -> Forall (fun o => o <> FIN) ops ->
+  sink_bytes (w_sink (m_writer (fst (run m0 ops)))) = [])%type).
+Check (C06_successful_finish_finishes : (forall m s m',
+  step m FIN = (m', RStats s) -> m_finished m' = true /\ w_finalized (m_writer m') = true)%type).
+Check (C06_after_finish_every_call_is_rejected_and_changes_nothing : (forall m,
+  m_finished m = true -> w_finalized (m_writer m) = true ->
+  forall o, exists e, step m o = (m, RErr e))%type).
+Check (C06_stats_count_frames_and_bytes : (forall m s m',
+  step m FIN = (m', RStats s) ->
+  st_video_frames s = len (w_vrev (m_writer m)) /\
+  st_audio_frames s = len (w_arev (m_writer m)) /\
   st_bytes s = w_bytes_written (m_writer m') /\
-  w_vrev (m_writer m') = w_vrev (m_writer m) /\ w_arev (m_writer m') = w_arev (m_writer m)).
-Check (C06_reported_bytes_are_the_delivered_bytes : forall b m0 ops, build b [] = inl m0 ->
-  (len (sink_bytes (w_sink (m_writer (fst (run m0 ops))))) < 18446744073709551616)%N ->
-  w_bytes_written (m_writer (fst (run m0 ops))) = len (sink_bytes (w_sink (m_writer (fst (run m0 ops)))))).
+  w_vrev (m_writer m') = w_vrev (m_writer m) /\ w_arev (m_writer m') = w_arev (m_writer m))%type).
+Check (C06_reported_bytes_are_the_delivered_bytes : (forall b m0 ops,
+  build b [] = inl m0 ->
+  len (sink_bytes (w_sink (m_writer (fst (run m0 ops))))) < 18446744073709551616 ->
+  w_bytes_written (m_writer (fst (run m0 ops))) = len (sink_bytes (w_sink (m_writer (fst (run m0 ops))))))%type).
+Check (C06_duration_ticks_are_the_largest_presentation_end : (forall w,
+  max_end_pts w =
+    match map (sample_end (w_vlast_delta w)) (w_vrev w) ++ map (sample_end (w_alast_delta w)) (w_arev w) with
+    | [] => None
+    | l => Some (fold_right N.max 0 l)
+    end)%type).
+Check (C06_reported_duration_is_that_tick_count_over_90000 : (forall m s m',
+  step m FIN = (m', RStats s) ->
+  st_duration s = fdiv (of_N (match max_end_pts (m_writer m) with Some t => t | None => 0 end)) f_90000)%type).
+Check (C06_nothing_is_written_after_finalization : (forall m ops,
+  w_finalized (m_writer m) = true -> sink_of (fst (run m ops)) = sink_of m)%type).
